@@ -7,6 +7,7 @@ use crate::{
     search_result::SearchResult,
     story::Story,
     story_error::StoryError,
+    story_state::StoryState,
     value_type::ValueType,
 };
 use std::rc::Rc;
@@ -68,6 +69,11 @@ impl Story {
     ) -> Result<(), StoryError> {
         self.if_async_we_cant("call ChoosePathString right now")?;
 
+        // Reject an unknown path or a bad argument before anything is modified.
+        let target_path = Path::new_with_components_string(Some(path));
+        Self::pointer_at_path(&self.main_content_container, &target_path)?;
+        StoryState::validate_arguments(args)?;
+
         if reset_call_stack {
             self.reset_callstack()?;
         } else {
@@ -108,7 +114,7 @@ impl Story {
 
         self.get_state_mut()
             .pass_arguments_to_evaluation_stack(args)?;
-        self.choose_path(&Path::new_with_components_string(Some(path)), true)?;
+        self.choose_path(&target_path, true)?;
 
         Ok(())
     }
